@@ -5,6 +5,7 @@
 import GormModel.Model.CallbackBuilder
 namespace Gorm
 namespace BldL
+open CbB
 
 /-- the tables a tree must show for the builder to mean what its spelling says: every starter zeroes everything but
     its own field, every chain method / finisher KEEPS every field it does not set (whether it mutates the receiver
@@ -17,7 +18,8 @@ def Canon (T : BuilderFacts) : Prop :=
   T.cbReplace = { name := .param0, handler := .param1, replace := .tru } ∧
   T.cbRemove = { name := .param0, remove := .tru } ∧
   (T.beforeFresh = true → T.cbBeforeRecv = {}) ∧ (T.afterFresh = true → T.cbAfterRecv = {}) ∧
-  T.finishersPlain = true ∧ T.noOtherChainMethods = true
+  T.finishersPlain = true ∧ T.noOtherChainMethods = true ∧
+  (T.beforeFresh = false → T.cbBeforeRecv = T.cbBefore) ∧ (T.afterFresh = false → T.cbAfterRecv = T.cbAfter)
 
 instance (T : BuilderFacts) : Decidable (Canon T) := by unfold Canon; infer_instance
 
@@ -79,6 +81,17 @@ theorem record_eq (T : BuilderFacts) (h : Canon T) (ch : Chain) : ch.record T = 
   rw [builder_eq T h]
   cases ch.fin <;>
     simp [Finish.run, hR, hP, hM, Shape.apply, Src.str, Src.bool, Src.pred, Src.hnd]
+
+/-- methods that MUTATE their receiver: throwing their results away changes nothing -/
+theorem recordDropped_eq (T : BuilderFacts) (h : Canon T) (hb : T.beforeFresh = false) (ha : T.afterFresh = false)
+    (ch : Chain) : ch.recordDropped T = ch.record T := by
+  have hB := h.2.2.2.2.2.2.2.2.2.2.2.2.2.1 hb
+  have hA := h.2.2.2.2.2.2.2.2.2.2.2.2.2.2 ha
+  unfold Chain.recordDropped Chain.record Chain.builder
+  have : Step.runRecv T = Step.run T := by
+    funext b s
+    cases s <;> simp [Step.runRecv, Step.run, hB, hA]
+  rw [this]
 
 /-! ## chains as `RegOp`s -/
 
